@@ -14,7 +14,7 @@ TraceLog == ndJsonDeserialize(IOEnv.TRACE)
 OutFile  == IOEnv.OUT
 None == -1
 MustLock == {"io_process", "new_pdu", "send", "notify", "new_session", "session_release", "resource_add", "resource_delete",
-             "max_pdu_size", "io_pending", "session_ping"}
+             "max_pdu_size", "io_pending", "session_ping", "session_reference"}
 VARIABLES l, rej, holder, frames, supported, nacq, ncalls, done
 vars == <<l, rej, holder, frames, supported, nacq, ncalls, done>>
 \* frames[t]: stack of [api, locked] for the calls thread t is inside (callbacks are transparent)
